@@ -21,6 +21,21 @@ def run(tier):
     fam = dict(peers=P, enabled=["Receive", "PeerUp", "PeerDown", "SetFail", "RetryTick", "Vector"],
                cat={"d1": attr("p3", "p2", prev="p3"), "d2": attr("p1", "far", prev="p1")})
     plans = [dict(name="gate", fam=fam, algo="prophet", budget=3, steps=4 if quick else 5, sim=(150, 14) if quick else (3000, 20), cap=700 if quick else None)]
+    # a peer withdraws what it advertised (a later summary vector without that destination): the gate follows the latest vector
+    wfam = dict(peers=P[:2], enabled=["Receive", "PeerUp", "RetryTick", "Vector"], cat={"d2": attr("p1", "far", prev="p1")},
+                vecdests=["far"], veclevels=[0, 2])
+
+    def withdrawn(h):
+        seen, n = set(), 0
+        for i, st in enumerate(h):
+            if st["act"] == "Vector":
+                if st["v"] == 0 and (st["p"], st["d"]) in seen and any(x["act"] in ("Receive", "RetryTick", "PeerUp") for x in h[i + 1:]):
+                    n += 1
+                if st["v"] > 0:
+                    seen.add((st["p"], st["d"]))
+        return n
+    plans.append(dict(name="withdrawn", fam=wfam, algo="prophet", budget=3, steps=5 if quick else 6, allpaths=True, cap=250 if quick else 4000,
+                      mc=False, prefer=lambda h: withdrawn(h) * (1 + sum(len(st["exp"]["sends"]) == 0 and st["act"] in ("Receive", "RetryTick", "PeerUp") for st in h))))
     total, st = run_families(chk, "C19", plans, tier)
     own_violations(chk, "C19")
     if st.get("act_Vector", 0) == 0 or st.get("expected_sends", 0) == 0:
